@@ -1,6 +1,7 @@
 import TenpyModel.C19.P2_MultiUnique
 import TenpyModel.C19.P2_PairsInst
 import TenpyModel.C19.P2_ValuesU
+import TenpyModel.C19.P2_Masked2
 /-!
 # C19 — property theorems, second part
 
@@ -154,7 +155,7 @@ theorem C19_values_u {α : Type} (Ls : List Nat) (Lu : Nat) (bc : List Bool) (sh
     have b1 := cIndex_bounds Ls _ ((hiff _).1 hc)
     simp only [flatC_eq, List.length_replicate]
     omega
-  refine ⟨hmlen, by simp [mps2latValues, hv, scatter_length], ?_, ?_, ?_⟩
+  refine ⟨hmlen, by simp only [mps2latValues, List.length_map]; rw [hv, scatter_length]; simp, ?_, ?_, ?_⟩
   · intro n hn
     refine ⟨(hiff _).1 (hcelln n hn), ?_⟩
     have hn' : n < pos.length := by simp [hpos, hmlen, hn]
@@ -190,6 +191,55 @@ example :
     let order : List (List Int) := castRows ((cstyle [2, 2, 2]).reverse)
     mps2latValues (Lat.mk' [2, 2] 2 [false, false] none true order) [10, 11, 12, 13] (some 1)
       = [some 13, some 12, some 11, some 10] := by decide
+
+/-! ## `mps2lat_values_masked` (after the committed fix of the result shape) -/
+
+/-- **`mps2lat_values_masked(A, mps_inds, include_u=True)` puts every value at the coordinates of
+its site** (repaired shape, fix 20bf1a0; any `LatOK` lattice: regular with any grid order, or
+irregular; `mps_inds` pairwise different, any integers for infinite MPS, `0 ≤ i < N` for finite
+MPS).  With `x_0` ranging over `[minX, maxX]` on the given sites the result has first dimension
+`s0 = max(L_0, maxX + 1) + max(0, -minX)`; the call never raises; `A[n]` sits at the C-order position
+of `mps2lat_idx(mps_inds[n])` (a negative `x_0` wrapped numpy-style by `+ s0`), which lies inside the
+result shape; no two sites collide (the positions are pairwise different, used in the proof), and every
+entry not hit is masked. -/
+theorem C19_values_masked {α : Type} (l : Lat) (ok : LatOK l) (A : List α) (mpsInds : List Int)
+    (hv : ∀ i ∈ mpsInds, ValidMps l i) (hnd : mpsInds.Nodup) (hlen : A.length = mpsInds.length) :
+    let xs := (mpsInds.map (mps2latIdx l)).map (·.headD 0)
+    let maxX := xs.foldl max (xs.headD 0)
+    let minX := xs.foldl min (xs.headD 0)
+    let s0 : Int := max (l.Ls.headD 0 : Int) (maxX + 1) + (if minX < 0 then -minX else 0)
+    let shape := (s0.toNat :: l.Ls.tail) ++ [l.Lu]
+    ∃ data, mps2latValuesMasked l A mpsInds true true = some (shape, data) ∧ data.length = prodNat shape ∧
+      (∀ n (hn : n < mpsInds.length), InGrid shape (wrapRow s0 (mps2latIdx l mpsInds[n])) ∧
+        data[(flatC shape (wrapRow s0 (mps2latIdx l mpsInds[n]))).toNat]? = (A[n]?).map some) ∧
+      (∀ p, p < prodNat shape →
+        (∀ n (hn : n < mpsInds.length), p ≠ (flatC shape (wrapRow s0 (mps2latIdx l mpsInds[n]))).toNat) →
+        data[p]? = some none) :=
+  masked_main l ok A mpsInds hv hnd hlen
+
+/-- Non-vacuity and the reason for the fix: an infinite folded chain (`order = 0, 3, 1, 2`).  The
+repaired function places both values; the shape computed from MPS-index arithmetic (as coded before
+the fix) raises `IndexError` for `mps_inds = [1, 5]` and lets the two sites of `[-1, 1]` collide
+(the value `10` is lost). -/
+theorem C19_values_masked_unrepaired_counterexample :
+    let l := Lat.mk' [4] 1 [false] none false [[0, 0], [3, 0], [1, 0], [2, 0]]
+    mps2latValuesMasked l [10, 11] [1, 5] true true
+      = some ([8, 1], [none, none, none, some 10, none, none, none, some 11]) ∧
+    mps2latValuesMasked l [10, 11] [1, 5] true false = none ∧
+    mps2latValuesMasked l [10, 11] [-1, 1] true false = some ([5, 1], [none, none, none, some 11, none]) ∧
+    mps2latValuesMasked l [10, 11] [-1, 1] true true = some ([6, 1], [none, none, none, some 11, some 10, none]) := by
+  decide
+
+example :
+    let l := Lat.mk' [4] 1 [false] none false [[0, 0], [3, 0], [1, 0], [2, 0]]
+    ∃ data, mps2latValuesMasked l ([10, 11] : List Nat) [-1, 1] true true = some ([6, 1], data) ∧
+      data[4]? = some (some 10) := by
+  intro l
+  have hg : GridOrder ([4] ++ [1]) [[0, 0], [3, 0], [1, 0], [2, 0]] := by unfold GridOrder; decide
+  have ok : LatOK l := latOK_mk' [4] 1 _ _ false _ (by decide) (by decide) (by decide) hg
+  obtain ⟨data, h1, _, h3, _⟩ := C19_values_masked l ok ([10, 11] : List Nat) [-1, 1]
+    (fun i _ hf => by cases hf) (by decide) rfl
+  exact ⟨data, h1, (h3 0 (by decide)).2⟩
 
 /-! ## predefined neighbour lists over all of `ℤ^dim` -/
 section PairsAll
